@@ -56,14 +56,27 @@ def _accept_invalid(evs):
     return None
 
 
+META = ("sync", ["-what", "metasmall"], "sync-metasmall")
+
+
 def check(run):
-    return syncfam.run_family(run, "C03", "hostile", PFX, sig=_sig, text=_text, assumptions=ASSUME, selftests=[
+    # also: metadata-only transfers into destinations whose listing name is a symlink to a file outside (the listing is
+    # the one file the receiver writes that no STAT announces)
+    return syncfam.run_family(run, "C03", "hostile", PFX, sig=_sig, text=_text, assumptions=ASSUME, also=[META], selftests=[
         ("change the ctime of an outside file in the after-snapshot", _touch_outside),
         ("turn the rejection of a stream containing '..' into success", _accept_invalid)])
 
 
 def replay(run, path):
     run.build()
+    import json
+    d = json.load(open(path))
+    ev0 = (d.get("events") or [d])[0]
+    if ev0.get("metaOnly"):
+        t, _ = run.drive("sync", replay=path, extra=META[1])
+        tr = syncfam.filter_prefix(run.tlc_trace("SyncTrace", t, shards=1), PFX)
+        fails = syncfam.confirm_by_replay_prefixed(run, "sync", "SyncTrace", tr, PFX, _sig, _text, META[1])
+        return finish(run, "model_checking", fails, assumptions=ASSUME)
     t, _ = run.drive("hostile", replay=path)
     tr = syncfam.filter_prefix(run.tlc_trace("SyncTrace", t, shards=1), PFX)
     fails = syncfam.confirm_by_replay_prefixed(run, "hostile", "SyncTrace", tr, PFX, _sig, _text, None)
